@@ -8,6 +8,11 @@ NOT_APPLICABLE = {
     'C03': 'C++ exception capture/transport/rethrow: CBMC\'s usable front end here is C, extraction drops try/catch, so no contract can mention the behaviour (DESIGN.md §6)',
 }
 CLAIMS = {
+    'C20': {
+        'technique': 'thread-modular rely/guarantee proof on CBMC of the two-party hand-shake over suspend_point_type::m_stack_state: each party\'s sliced code is proved against the other party\'s possible steps, ghost push counter with owed-by markers',
+        'text': 'Given one resume() call per suspension: in both orders of the resumer\'s and the leaver\'s exchanges exactly one resume task is pushed, never while the stack is still active, only by the party that owes it; the state follows A->S->N or A->N->S->N; recall_owner marks a suspended stack notified and raises the recall flag.',
+        'note': 'Trusted: stream push / arena references / advertise as stubs (push counted), SC atomics. Not decided: the coroutine switch, other post-resume actions, owner-recall wake-up (liveness), the enclosing wait (C01).',
+    },
     'C16': {
         'technique': 'CBMC loop-free harnesses with contract stubs (limit_delta, get_critical_task), rely/guarantee on the slot flag and dfcc loop contracts on the slot search, sliced from src/tbb',
         'text': 'limit_delta equals the change in granted workers min(limit,new)-min(limit,new-delta) for all int triples without overflow; get_critical_task re-spawns a displaced task exactly once in its own context and under its own isolation tag and runs the critical task under the critical task\'s; try_occupy returns true only to the caller whose exchange flipped the flag; occupy_free_slot returns out_of_arena or an index inside [reserved|0, num_slots) that this caller claimed (a worker never a reserved one), leaves no other slot claimed, and my_limit only grows to cover it - for every arena size and any interference on the slots.',
